@@ -659,7 +659,9 @@ def oracleC10 (c : Case) : Option (List String) :=
     let (b, u, a) := opinionAt xs 0 n
     let ts := slice xs (2 * n + 1) k
     let simplexOnly := c.variant.getD 2 "" == "s"
-    if !(wfOpinion 0 b u a && ts.all (fun t => decide (0 ≤ t) && decide (t ≤ 1))) then none else
+    -- operands well-formed within the constructors' tolerance (arbitrary floats) are in scope: the formulas are plain
+    -- arithmetic on the supplied numbers, and "base rate unchanged" is checked bit for bit
+    if !(wfOpinion (4 * e) b u a && ts.all (fun t => decide (0 ≤ t) && decide (t ≤ 1))) then none else
     let t := ts.foldl (· * ·) 1
     withValue c "C10" fun out =>
       let b' := slice out 0 n
